@@ -14,8 +14,8 @@ Lemma seq_del_pred_spec rs re s e :
   0 <= rs <= re -> 0 <= s <= e ->
   (seq_del_pred rs re s e = true <-> rs <= e + 1 /\ s - 1 <= re).
 Proof.
-  intros Hr Hs. unfold seq_del_pred.
-  rewrite !orb_true_iff, !andb_true_iff, !Z.leb_le, negb_true_iff, !Z.eqb_eq, Z.eqb_neq.
+  intros Hr Hs. unfold seq_del_pred, Gen.SeqSql.seq_del_pred_src.
+  rewrite ?orb_true_iff, ?andb_true_iff, ?negb_true_iff, ?Z.leb_le, ?Z.ltb_lt, ?Z.eqb_eq, ?Z.eqb_neq.
   lia.
 Qed.
 
